@@ -67,6 +67,8 @@ type FuncContract struct {
 	HasSpec  bool // has requires/ensures (modular use at call sites)
 	Opaque   bool // treat calls as opaque (no contract, no inlining)
 	Goroutine bool // entry point of a goroutine: no caller context
+	LoopName map[int]int // current loop ordinal -> ordinal the contract (the baseline) uses for that loop
+	LoopsRemapped bool // loop ordinals of the clauses were translated to the current tree (loops added / removed / reordered)
 	Detached bool   // no function of the current tree matches what this contract was written for
 	Rebound  string // the function (by its own name) this contract was re-bound to, if not the one its key names
 	NotThreadSafe bool // (assumed) the method mutates its receiver without synchronisation: the receiver must be unshared or locked
